@@ -58,7 +58,12 @@ type Push struct {
 	Kind  string
 	Value resp.Value
 	Step  int
+	Keys  []string // invalidate: the keys (nil for a flush)
+	Flush bool
 }
+
+// Seq returns the current global sequence number (commands, modifications and pushes share one counter).
+func (w *World) Seq() int { return w.seq }
 
 // World is a set of nodes sharing a clock.
 type World struct {
@@ -70,6 +75,7 @@ type World struct {
 	Step    int // set by the scheduler before each event
 	seq     int
 	connSeq int
+	curExec *Exec
 
 	// Intercept, when set, may answer a command instead of the model.
 	// It runs after protocol-level state handling decisions are made by the
@@ -294,7 +300,17 @@ func (sc *SrvConn) push(kind string, v resp.Value) {
 	}
 	w := sc.Node.W
 	w.seq++
-	w.Pushes = append(w.Pushes, &Push{Seq: w.seq, Conn: sc.ID, Kind: kind, Value: v, Step: w.Step})
+	pu := &Push{Seq: w.seq, Conn: sc.ID, Kind: kind, Value: v, Step: w.Step}
+	if kind == "invalidate" && len(v.A) == 2 {
+		if v.A[1].T == '_' {
+			pu.Flush = true
+		} else {
+			for _, k := range v.A[1].A {
+				pu.Keys = append(pu.Keys, k.S)
+			}
+		}
+	}
+	w.Pushes = append(w.Pushes, pu)
 	if sc.inCommand {
 		sc.deferred = append(sc.deferred, v)
 		return
@@ -338,6 +354,11 @@ func (w *World) handle(sc *SrvConn, argv []string) {
 		if v, ok := w.Intercept(sc, argv); ok {
 			if sc.multi && v.IsErr() && name != "EXEC" && name != "DISCARD" && name != "MULTI" {
 				sc.multiDirty = true
+			}
+			if name == "EXEC" || name == "DISCARD" {
+				// an intercepted EXEC (e.g. EXECABORT) still ends the transaction
+				sc.multi, sc.queued, sc.multiDirty, sc.watching = false, nil, false, nil
+				sc.caching = 0
 			}
 			finish(v)
 			return
@@ -476,6 +497,7 @@ func (w *World) run(sc *SrvConn, e *Exec, spec *cmdSpec, argv []string) (v resp.
 	for _, k := range keys {
 		db.expireIfNeeded(w, sc, k)
 	}
+	w.curExec = e
 	res := spec.fn(w, sc, e, argv)
 	if res.blocked {
 		return v, true
